@@ -237,10 +237,11 @@ def maxFn : List AVal → Option AVal
       | none => none
       | some (m, v) => some ⟨mn, mx, m, v⟩
 
-/-- `_compute_constraints_of_bound_function`. -/
+/-- `_compute_constraints_of_bound_function`: a finite bound is a constant; an infinite
+    one says nothing (unbounded, modulus 1) — never a "constant infinity". -/
 def boundFn (upper : Bool) (a : AVal) : AVal :=
   let v := if upper then a.max else a.min
-  ⟨v, v, .inf, v⟩
+  if v.isInf then ⟨.negInf, .posInf, .fin 1, .fin 0⟩ else ⟨v, v, .inf, v⟩
 
 inductive LeafKind where
   | uint | sint | bcd
@@ -424,12 +425,12 @@ def cvMax (vs : List CV) : CV :=
     | some l => match maxInts l with | some m => .val (.int m) | none => .crash
     | none => .crash
 
-/-- `$upper_bound`/`$lower_bound` are missing from the `functions` table: KeyError as
-    soon as the operand is known. -/
-def cvBound (a : CV) : CV :=
-  match a with
-  | .unknown => .unknown
-  | _ => .crash
+/-- `$upper_bound`/`$lower_bound` in `ir_util.constant_value`: read from the node's own type
+    annotation (like constant references): known iff that is a finite constant; the
+    operand's `constant_value` is not computed. -/
+def cvBound : Option AType → CV
+  | some (.int ⟨_, _, .inf, .fin v⟩) => .val (.int v)
+  | _ => .unknown
 
 def atypeConstCV : Option AType → CV
   | some (.int ⟨_, _, .inf, .fin v⟩) => .val (.int v)
@@ -514,8 +515,8 @@ def cv : Expr → CV
   | .bin op l r => cvBin op (cv l) (cv r)
   | .choice c t f => cvChoice (cv c) (cv t) (cv f)
   | .max args => cvMax (cvList args)
-  | .upper e => cvBound (cv e)
-  | .lower e => cvBound (cv e)
+  | .upper e => cvBound (match abs e with | some a => absBound true a | none => none)
+  | .lower e => cvBound (match abs e with | some a => absBound false a | none => none)
   | .cref e => atypeConstCV (abs e)
   | .vref _ => .unknown
 def cvList : List Expr → List CV
